@@ -995,6 +995,22 @@ func init() {
 				addMarshal(ugo.Float(f))
 				addMarshal(ugo.Float(-f))
 			}
+			// whole-valued floats above 2^53: the exact integer has more digits than the shortest text that
+			// reads back as the same float (2^56 = 72057594037927936 is written 72057594037927940), and the
+			// neighbours of the powers of ten where the notation changes
+			for k := 50; k <= 64; k++ {
+				p := math.Ldexp(1, k)
+				for _, f := range []float64{p, math.Nextafter(p, math.Inf(1)), math.Nextafter(p, 0), 3 * p / 2, p + math.Ldexp(5, k-3)} {
+					addMarshal(ugo.Float(f))
+					addMarshal(ugo.Array{ugo.Float(-f)})
+				}
+			}
+			for e := 14; e <= 22; e++ {
+				p := math.Pow(10, float64(e))
+				for _, f := range []float64{p, math.Nextafter(p, math.Inf(1)), math.Nextafter(p, 0), p - 128, 9 * p / 7} {
+					addMarshal(ugo.Float(math.Trunc(f)))
+				}
+			}
 			for _, s := range strPieces {
 				addMarshal(ugo.String(s))
 				addMarshal(ugo.String("x" + s + "y" + s))
